@@ -14,6 +14,7 @@ oracle/search:  the DENOTATION computed from the AST (harness/tokast.py, shares 
 import random
 
 import framework as fw
+import gen_inputs as gi
 import layers
 import molast
 import tokast
@@ -122,6 +123,20 @@ def check(rep):
         d = layers.stoch_diff(mo, io)
         if d:
             rep.fail("correspondence", f"stochastic-object layer on {t!r}: " + "; ".join(d[:3]), {"layer": "stochastic", "text": t}, expected=str(mo)[:400], observed=str(io)[:400])
+    # ---- tie K: molecule layer, model (Model/Mol.v) vs Molecule(text): elements in order (tokens with the descriptors added automatically,
+    # objects with terminals / tokens / family), mixture values, generability
+    mtexts = [mg0.molecule()[0] for _ in range(200 if quick else 6000)] + list(gi.DOCUMENTED) + [t for _, t, _ in gi.cases(rep.seed + 203, 110 if quick else 3000)]
+    mtexts = list(dict.fromkeys(mtexts))
+    n_molk = 0
+    for t, o in zip(mtexts, fw.run_driver([layers.mol_line(t) for t in mtexts])):
+        evaluations += 1
+        mo, io = layers.parse_model_mol(o), layers.impl_mol(t)
+        n_molk += isinstance(io, dict)
+        d = layers.mol_diff(mo, io)
+        if d:
+            rep.fail("correspondence", f"molecule layer on {t!r}: " + "; ".join(d[:3]), {"layer": "molecule-model", "text": t}, expected=str(mo)[:400], observed=str(io)[:400])
+    rep.coverage["molecules_vs_model"] = len(mtexts)
+    rep.coverage["molecules_accepted"] = n_molk
     rep.coverage["objects_vs_model"] = len(objs)
     rep.coverage["objects_accepted"] = n_obj
     # ---- stochastic objects / molecules: terminals, tokens in order, distribution family and parameters
